@@ -27,6 +27,10 @@ def na2 : FTy := { size := 2, align := 2, a1 := false, reprAlign := true, zeroab
                    nouninit := false, checked := false, pod := false }
 /-- `#[repr(u8)] enum { A, B }` -/
 def ne : FTy := { size := 1, align := 1, a1 := true, pod := false, valid := boolLike }
+/-- `[u16; 2]` -/
+def u16x2 : FTy := { size := 4, align := 2, a1 := false }
+/-- `(u16,)`: bytemuck implements `Zeroable` for tuples, nothing else -/
+def tup16 : FTy := { size := 2, align := 2, a1 := false, nouninit := false, checked := false, pod := false }
 end Ty
 
 /-- token → concrete field type -/
@@ -43,6 +47,8 @@ def ftyOf : String → Option FTy
   | "np" => some Ty.np
   | "na2" => some Ty.na2
   | "ne" => some Ty.ne
+  | "u16x2" => some Ty.u16x2
+  | "tup16" => some Ty.tup16
   | _ => none
 
 def fieldOf (generic : Bool) (s : String) : Option Field :=
